@@ -37,6 +37,10 @@ CLAIMED = {
  "C14": ("exploration", "Engine R", "owned randomness for the generators: seeded facade with forced repeated samples, perturbation of the global PRNG state between same-seed calls ('somebody else drew'), structural contracts checked on every output",
          "random_hypergraph / random_uniform_hypergraph (node set, sizes, distinct nodes, at most the requested count and at least one, same output for the same seed with the global streams perturbed and another generator run in between), scale_free_hypergraph (exact count per size, also with default arguments), HOADmodel (size = order+1, nodes < N, 0 <= t < time), add_random_edge(s) (only new hyperedges of the requested size over existing nodes; inplace=False leaves the argument untouched), random_shuffle(_all_orders) (node set, other sizes, sizes of rewired hyperedges, replacement nodes from the rewired hyperedges only, p = 0 changes nothing, inplace=False leaves the argument untouched).",
          "counts <= half of the possible hyperedges per size; shuffle inputs unweighted and metadata-free."),
+
+ "C18": ("exploration", "Engine R", "owned randomness for the dynamics: every infection/recovery coin and every walk step goes through a seeded facade, with adversarial and pinned draws (0.0 / just below 1); discrete time stepped by the code itself; exact synchronous reference in the determined regimes",
+         "Partly claimed.  simplicial_contagion: fractions in [0,1], first value = initial fraction, non-decreasing for mu = 0, non-increasing for beta = beta_D = 0 under fair, adversarial and pinned draws; exact trajectories against an independent synchronous reference in the eight 0/1 regimes and, with pinned draws, for arbitrary rates; initial condition untouched.  random_walk: consecutive nodes share a hyperedge also for adversarial choice outcomes; random_walk_density: each density is the previous one times the transition matrix and sums to one.",
+         "Row-stochasticity, (size-1) weighting and stationarity are pure algebra: checked only as the walk's oracle on the sampled inputs (connected, labelled 0..N-1, N <= 8)."),
 }
 NA = {
  "C08": "pure function of the hypergraph value (degrees, components): no history, I/O, random draw, clock or interleaving for a simulator to own (DESIGN.md 8)",
